@@ -151,6 +151,26 @@ def build_recv_fault(follow, lookahead, threads, poll, sndbuf):
             "m_index": -1, "kind": "recv-fault"}
 
 
+def stale_readable_scenario(kind):
+    """No look-ahead.  The closing request M of connection 0 is a long poll released by a request of
+    connection 1 (second worker); M's follow-up requests are already waiting, unread, in the socket.  While
+    connection 1 is served the I/O thread makes passes -- evaluating readable() of connection 0 term by term,
+    without a lock -- during which M's worker becomes runnable, takes the close decision and flushes."""
+    from vf.sim import scenario as SC
+
+    M = {"n": 600, "k": "cl", "gate": "peer"}
+    if kind == "conn-close":
+        M["close"] = True
+    else:
+        M["k"], M["w"] = kind, 100
+    reqs = [M, {"n": 10, "k": "cl"}, {"n": 20, "k": "cl"}]
+    head_len = len(b"".join(SC.request_bytes(0, 0, M)))
+    c0 = {"requests": reqs, "sndbuf": 8192, "plan": [[head_len, "app-waiting", 1]]}
+    c1 = {"requests": [{"n": 5, "k": "cl"}, {"n": 6, "k": "cl"}], "sndbuf": 8192, "delay": 0.01, "plan": [[0, "any-app-waiting", 0], [0, "yield", 40]]}
+    return {"adj": {"threads": 2, "channel_request_lookahead": 0, "asyncore_use_poll": False, "send_bytes": 1}, "sndbuf": 8192,
+            "conns": [c0, c1], "faults": {}, "m_index": 0, "kind": kind, "follow": "two", "arrival": "during-execution"}
+
+
 def gen_scenario(rng):
     kind = rng.choice(KINDS)
     follow = rng.choice(FOLLOW)
@@ -228,6 +248,16 @@ def plan(tier, seed):
     for scn in d2:
         for p in range(8):
             specs.append({"mode": "enum2", "scn": scn, "part": p, "parts": 8, "window": 40 if tier == "quick" else 120})
+    d0 = [stale_readable_scenario(k) for k in ("conn-close", "raise0", "short")]
+    for kind in ():
+        # no look-ahead, and a send buffer that takes the whole closing response (nothing left pending)
+        # ... and the follow-up requests arrive while the closing one executes: they wait, unread, in the socket
+        s0 = build(kind, "two", "during-execution", 0, 1, False, [], sndbuf=8192)
+        s0["follow"], s0["arrival"] = "two", "during-execution"
+        d0.append(s0)
+    for scn in (d0[:1] if tier == "quick" else d0):
+        for p in range(8):
+            specs.append({"mode": "enum2", "shape": "stale-readable", "scn": scn, "part": p, "parts": 8, "window": 40 if tier == "quick" else 80})
     d3 = [d for d in directed() if d.get("small_reads")]
     if tier == "quick":
         d3 = d3[:2]
@@ -460,6 +490,20 @@ def run_shard(spec):
                 return isinstance(site, tuple) and (site[0] == "service" or site[0] in ("lock", "unlock"))
 
             gen = runner.double_preemptions(scn, first, window=spec.get("window", 60), second="target", second_filter=second)
+        elif spec.get("shape") == "stale-readable":
+            # first pre-emption: the I/O thread is in the middle of readable() (it has read some of the terms) when
+            # the worker executes the closing request and takes the decision; second pre-emption: the I/O thread,
+            # acting on its stale answer, has just queued what it read -- the worker runs before the I/O thread
+            # gets to close the connection
+            def first(site, cur):
+                # (the channel's readable() has a yield point per bytecode instruction: 'i<offset>')
+                return isinstance(site, tuple) and site[0] == "readable" and isinstance(site[1], str)
+
+            def second(site):
+                return isinstance(site, tuple) and site[0] in ("add_task", "received")
+
+            gen = runner.double_preemptions(scn, first, window=spec.get("window", 40), second="preempted", second_filter=second,
+                                            first_roles=("worker",))
         else:
             # two pre-emptions: one inside the I/O thread's received() (between its
             # closing-flag test and its queue push), one shortly after it resumes
@@ -480,10 +524,13 @@ def run_shard(spec):
         # every pre-emption in the steps that follow an injected fault is kept (the window in which the
         # server has met the error but has not yet given the connection up), the rest is sampled
         fs = getattr(o.world, "fault_step", None)
+        # ... and every pre-emption of the I/O thread inside readable() (evaluated without a lock, term by
+        # term: the worker may take its decision between two of the terms)
+        in_readable = {(e[0], t) for e in o.pilot if isinstance(e[2], tuple) and e[2][0] == "readable" for t in e[1]}
         runner.finish(o)
         if spec.get("cap") and len(points) > spec["cap"] * spec["parts"]:
             rng = random.Random(len(points))
-            focus = [pt for pt in points if fs is not None and fs <= pt[0] <= fs + 250]
+            focus = [pt for pt in points if (fs is not None and fs <= pt[0] <= fs + 250) or pt in in_readable]
             rest = [pt for pt in points if pt not in set(focus)]
             points = sorted(set(focus) | set(rng.sample(rest, min(len(rest), spec["cap"] * spec["parts"]))))
             acc.count("enum_capped")
